@@ -126,6 +126,22 @@ def shared_containers(ctx, report, RULE='C13.R5', only=None):
                 if r:
                     return r
         return None
+    def read_out_of(v, depth=0):
+        """name of the class / module level container the value is an *element* of (``X[k]``, ``X.get(k)``, ``X.setdefault(k, d)[j]``)"""
+        from ..values import Sym
+        if depth > 6 or not isinstance(v, Sym):
+            return None
+        if v.op in ('index', 'elem') and v.args:
+            return held(v.args[0]) or read_out_of(v.args[0], depth + 1)
+        if v.op == 'call' and v.args and isinstance(v.args[0], Sym) and v.args[0].op == 'attr' and v.args[0].args[1] in ('get', 'setdefault', 'pop'):
+            recv = v.args[0].args[0]
+            return held(recv) or read_out_of(recv, depth + 1)
+        if v.op == 'phi':
+            for a in v.args:
+                r = read_out_of(a, depth + 1)
+                if r:
+                    return r
+        return None
     for c in representatives(ctx, '_parse'):
         if only is not None and not only(c):
             continue
@@ -133,6 +149,22 @@ def shared_containers(ctx, report, RULE='C13.R5', only=None):
             res = ctx.canon.layout(c, 'parse').result
         except Exception:      # pylint: disable=broad-except
             continue
+        # objects the parser *stores* in class level state ...
+        from ..values import ObjV
+        stored = {}
+        for n in walk(res.block):
+            if isinstance(n, Effect) and n.what == 'setitem' and len(n.args) >= 2 and isinstance(n.args[1], (ObjV, ListV, DictV)):
+                where = held(n.target) or read_out_of(n.target)
+                if where:
+                    stored[where] = n
+        # ... and hands out as (part of) its result: every later parse with the same key returns the same mutable object
+        first = res.value[0] if isinstance(res.value, tuple) and res.value else res.value
+        where = read_out_of(first)
+        if where and where in stored:
+            report.count(RULE)
+            report.add(RULE, '%s@cached-object' % c.resolve('_parse').construct,
+                       'the parser stores the object it builds in %s and returns the stored one: two parses of the same bytes give the *same* '
+                       'mutable object, editing the item of one message edits it in every other message (and in later parses)' % where)
         objs = []
         objects(res.value, objs)
         for o in objs:
@@ -249,6 +281,8 @@ def effect_text(e):
         return 'assigns %s.%s' % (show(e.target), e.args[0])
     if e.what == 'augassign':
         return 'augmented assignment to %s.%s' % (show(e.target), e.args[0])
+    if e.what == 'inplace':
+        return '%s %s ... applied to a local that is %s itself: a list, set or bytearray is changed in place' % (show(e.target), e.args[0], show(e.target))
     if e.what in ('setitem', 'delitem'):
         return '%s on %s' % ('item assignment' if e.what == 'setitem' else 'del item', show(e.target))
     return '%s %s' % (e.what, show(e.target))
